@@ -57,6 +57,10 @@ def values(kind, tier):
                 out.append(-v)
     if c != 'pos':
         out.append(0.0)
+        out.append(0)
+    out += [1, 3, 1000]                    # integer-valued quantities
+    if c is None:
+        out += [-7]
     # subnormal / tiny and huge members for conversion only
     return out
 
